@@ -143,8 +143,8 @@ func (c *ScriptConn) Write(p []byte) (int, error) {
 	return len(p), nil
 }
 
-func (c *ScriptConn) Close() error                       { c.Closed = true; return nil }
-func (c *ScriptConn) LocalAddr() net.Addr                { return scriptAddr{} }
+func (c *ScriptConn) Close() error        { c.Closed = true; return nil }
+func (c *ScriptConn) LocalAddr() net.Addr { return scriptAddr{} }
 func (c *ScriptConn) RemoteAddr() net.Addr {
 	if c.OnRemoteAddr != nil {
 		f := c.OnRemoteAddr
@@ -246,8 +246,19 @@ func ModelBufioNewReader(rd io.Reader) *bufio.Reader {
 	r := &bufio.Reader{}
 	if c, ok := rd.(*ScriptConn); ok {
 		connOfBufio[r] = c
+	} else if rd != nil {
+		vfsBufReaders[r] = rd
 	}
 	return r
+}
+
+// ModelBufioReset models (*bufio.Reader).Reset.
+func ModelBufioReset(r *bufio.Reader, rd io.Reader) {
+	if c, ok := rd.(*ScriptConn); ok {
+		connOfBufio[r] = c
+		return
+	}
+	vfsBufReaders[r] = rd
 }
 
 // ModelBufioReadString models (*bufio.Reader).ReadString('\n') over a scripted connection: a
@@ -430,10 +441,10 @@ func ResetGates() {
 
 // ScriptListener is a net.Listener handing out the given connections, then blocking until closed.
 type ScriptListener struct {
-	Conns    []net.Conn
-	Accepted int
-	closed   chan struct{}
-	once     sync.Once
+	Conns      []net.Conn
+	Accepted   int
+	closed     chan struct{}
+	once       sync.Once
 	AfterClose int // Accept calls that returned the "closed" error
 }
 
